@@ -309,6 +309,8 @@ Record instance := {
   i_blk : list (string * bool);              (* blocking site s = position: what, listed *)
   i_tbl : list (string * held * path);       (* goroutine bodies *)
   i_methods : list (string * list path);     (* the operations of the property: acyclic paths *)
+  i_panic : list (string * list path);       (* their panic exits taken while a lock is held: what ran
+                                                before the panic, then the deferred calls *)
   i_other : list (string * list path)        (* exported methods outside the property *)
 }.
 
@@ -354,7 +356,7 @@ Definition seg_in_range (I : instance) (s : seg) : bool :=
   end.
 Definition tables_in_range (I : instance) : bool :=
   forallb (fun e => forallb (seg_in_range I) (snd e)) (i_tbl I)
-  && forallb (fun e => forallb (forallb (seg_in_range I)) (snd e)) (i_methods I ++ i_other I)
+  && forallb (fun e => forallb (forallb (seg_in_range I)) (snd e)) (i_methods I ++ i_panic I ++ i_other I)
   && forallb (fun e => Nat.ltb (snd (fst e)) (length (i_mutexes I)) || snd e) (i_fields I).
 
 Definition violations (I : instance) : list (string * nat) :=
@@ -362,6 +364,13 @@ Definition violations (I : instance) : list (string * nat) :=
   ++ bad_entries_from I 0 (i_tbl I) ++ bad_methods I (i_methods I).
 Definition other_violations (I : instance) : list (string * nat) :=
   bad_methods I (i_other I).
+(* panic exits that break the discipline (a lock still held after the deferred calls have run) *)
+Definition panic_violations (I : instance) : list (string * nat) :=
+  bad_methods I (i_panic I).
+(* the same object with the panic exits counted among the ways a call can run *)
+Definition with_panics (I : instance) : instance :=
+  {| i_name := i_name I; i_mutexes := i_mutexes I; i_fields := i_fields I; i_blk := i_blk I;
+     i_tbl := i_tbl I; i_methods := i_methods I ++ i_panic I; i_panic := []; i_other := i_other I |}.
 
 (* ---- one critical section per call ---------------------------------------------------------
    The discipline makes every critical section atomic; a CALL is atomic (one step of the sequential
